@@ -93,12 +93,23 @@ def run(cmd, cwd=None, env=None, timeout=None, stdin=None, stdout=None):
     return p.returncode, (p.stdout if not stdout else p.stderr) or ""
 
 
-def strip_comments(src):
-    """remove Lean block and line comments (for the forbidden-token scan and theorem listing)"""
+def strip_comments(src, blank_strings=False):
+    """remove Lean block and line comments (for the forbidden-token scan and theorem listing). String literals are
+    recognised, so a `/-` or `--` inside a (generated) string does not start a comment; with `blank_strings` their
+    contents are dropped too (the forbidden-token scan must not trip over a Rust path or function name that the
+    translator copied into a string: audit 5, L5)."""
     out = []
     i, depth, n = 0, 0, len(src)
     while i < n:
-        if src.startswith("/-", i):
+        if depth == 0 and src[i] == '"':
+            j = i + 1
+            while j < n and src[j] != '"':
+                j += 2 if src[j] == "\\" else 1
+            j = min(j + 1, n)
+            lit = src[i:j]
+            out.append('""' + "\n" * lit.count("\n") if blank_strings else lit)
+            i = j
+        elif src.startswith("/-", i):
             depth += 1
             i += 2
         elif depth and src.startswith("-/", i):
@@ -315,7 +326,7 @@ def main():
                 discharged += 1
         for m in sorted({x for pm in props_mods for x in lean_imports_closure(pm)}):
             p = os.path.join(LEAN, m.replace(".", "/") + ".lean")
-            for ln, line in enumerate(strip_comments(open(p).read()).split("\n"), 1):
+            for ln, line in enumerate(strip_comments(open(p).read(), blank_strings=True).split("\n"), 1):
                 if FORBIDDEN.search(line):
                     forbidden_hits.append(f"{m}:{ln}: {line.strip()[:80]}")
         if forbidden_hits:
@@ -445,6 +456,8 @@ def main():
         wide = harness_run("thorough", os.path.join(work, "run-search"), compare=False, timeout=600)
         failures.extend(wide["failures"])
         extra_runs.append({"search": "thorough scope", "ops": wide["n_ops"], "oracle_failures": len(wide["failures"]), "errors": wide["errors"]})
+        if wide["errors"]:
+            tie_notes.append("search for a failing input in the thorough scope did not run to its end: " + "; ".join(str(e)[:160] for e in wide["errors"][:3]))
 
     # Oracle classes marked `tie-hypothesis` validate an ASSUMPTION of a theorem on the real code (e.g. the accuracy
     # of the f32 trigonometry that `sector_angular_partial` takes as a hypothesis), not a clause of the property text:
